@@ -2,6 +2,7 @@ package main
 
 import (
 	"fmt"
+	"go/types"
 	"strings"
 
 	"golang.org/x/tools/go/ssa"
@@ -33,19 +34,33 @@ func authClosure(p *Prog, outer string) *ssa.Function {
 	return best
 }
 
-// callbackCall finds the call of the captured application callback (free variable `authenticate`).
+// callbackCall finds the call of the captured application callback: a dynamic call whose function value is a
+// func-typed parameter of the constructor the closure was made in (whatever that parameter is called).
 func callbackCall(f *ssa.Function) *ssa.Call {
+	outer := f.Parent()
+	for outer != nil && outer.Parent() != nil {
+		outer = outer.Parent()
+	}
+	isCallbackParam := func(o Origin) bool {
+		prm, ok := o.V.(*ssa.Parameter)
+		if !ok || prm.Parent() != outer {
+			return false
+		}
+		_, isSig := prm.Type().Underlying().(*types.Signature)
+		return isSig
+	}
 	for _, in := range instrs(f) {
 		call, ok := in.(*ssa.Call)
 		if !ok || call.Call.IsInvoke() {
 			continue
 		}
-		if ad, ok := derefLoad(call.Call.Value); ok {
-			if fv, isFV := ad.(*ssa.FreeVar); isFV && fv.Name() == "authenticate" {
-				return call
-			}
+		if _, isFn := call.Call.Value.(*ssa.Function); isFn {
+			continue
 		}
-		if fv, isFV := call.Call.Value.(*ssa.FreeVar); isFV && fv.Name() == "authenticate" {
+		if _, isB := call.Call.Value.(*ssa.Builtin); isB {
+			continue
+		}
+		if okc, _ := allOrigins(call.Call.Value, isCallbackParam); okc {
 			return call
 		}
 	}
@@ -116,14 +131,14 @@ func runC14(c *Ctx) {
 				}
 				for _, g := range callsIn(a, "(net/http.Header).Get") {
 					_, ga := callArgs(g.Common())
-					if freeVarLoadIs(ga[0], "name") || isFreeVarNamed(ga[0], "name") {
+					if isOuterParam(ga[0], outer, 0) {
 						nHdr++
 					}
 				}
 				for _, g := range callsIn(a, "(net/url.Values).Get") {
 					recv, ga := callArgs(g.Common())
 					okQ, _ := allOrigins(recv, oCall(-1, "(*net/url.URL).Query"))
-					if okQ && (freeVarLoadIs(ga[0], "name") || isFreeVarNamed(ga[0], "name")) {
+					if okQ && isOuterParam(ga[0], outer, 0) {
 						nQry++
 					}
 				}
@@ -156,11 +171,40 @@ func runC14(c *Ctx) {
 						okPrefix = hp
 					}
 				}
+				// strings.CutPrefix(hdr, "Bearer "): the remainder is taken as the token only when the prefix was found
+				for _, cpi := range callsIn(f, "strings.CutPrefix") {
+					cp := cpi.(*ssa.Call)
+					s, _ := constString(cp.Call.Args[1])
+					if s != "Bearer " || cp.Call.Args[0] != ssa.Value(h) {
+						continue
+					}
+					rest, found := resultOf(cp, 0), resultOf(cp, 1)
+					if rest == nil || found == nil {
+						continue
+					}
+					uses, okUses := 0, true
+					for _, in := range instrs(f) {
+						phi, isPhi := in.(*ssa.Phi)
+						if !isPhi {
+							continue
+						}
+						for i, e := range phi.Edges {
+							if e != rest {
+								continue
+							}
+							uses++
+							if !edgeGuarded(phi.Block().Preds[i], phi.Block(), nil, factBool(vIs(found), true)) {
+								okUses = false
+							}
+						}
+					}
+					okPrefix = uses > 0 && okUses
+				}
 				c.obI("R14.3", h, "header-first-with-bearer-prefix", okH && okPrefix && dominates(h, q) && dominates(h, fm), "the Authorization header is read first and a token is taken from it only behind the \"Bearer \" prefix", "")
 				_, qa := callArgs(&q.Call)
 				qk, _ := constString(qa[0])
 				isTokenEmpty := factEqString(func(v ssa.Value) bool {
-					ok, _ := allOrigins(v, oConstString(""), oCall(-1, "strings.TrimPrefix"), oCall(-1, "(net/url.Values).Get"), oCall(-1, "(*net/http.Request).FormValue"))
+					ok, _ := allOrigins(v, oConstString(""), oCall(-1, "strings.TrimPrefix"), oCall(0, "strings.CutPrefix"), oCall(-1, "(net/url.Values).Get"), oCall(-1, "(*net/http.Request).FormValue"))
 					return ok
 				}, "", true)
 				c.obI("R14.3", q, "query-only-without-header-token", qk == "access_token" && guardedBy(q, h, isTokenEmpty), "the access_token query parameter is read only when the header gave no token", "")
@@ -191,7 +235,7 @@ func runC14(c *Ctx) {
 				}
 				c.obI("R14.3", fm, "form-never-pre-empts-query", okPre,
 					"every way of reaching the form read with an empty token has tried the query parameter first (FormValue merges query and body, body first: reading it alone would invert the precedence)", whyPre)
-				okT, bad := allOrigins(tok, oConstString(""), oIsValue(h), oCall(-1, "strings.TrimPrefix"), oIsValue(q), oIsValue(fm))
+				okT, bad := allOrigins(tok, oConstString(""), oIsValue(h), oCall(-1, "strings.TrimPrefix"), oCall(0, "strings.CutPrefix"), oIsValue(q), oIsValue(fm))
 				c.obI("R14.1", cb, "callback-gets-transmitted-credentials", okT, "the callback receives exactly the token found", "origin "+describeOrigin(bad))
 				okS := vFieldLoadO("rt/security.ScopedAuthRequest", "RequiredScopes")(cb.Call.Args[off+1])
 				c.obI("R14.1", cb, "callback-gets-required-scopes", okS, "the callback receives the operation's required scopes", "")
@@ -292,7 +336,7 @@ func runC14(c *Ctx) {
 		if len(elems) == 1 {
 			if bo, ok := elems[0].(*ssa.BinOp); ok {
 				pre, _ := constString(bo.X)
-				okV = pre == "Bearer " && (freeVarLoadIs(bo.Y, "token") || isFreeVarNamed(bo.Y, "token"))
+				okV = pre == "Bearer " && isOuterParam(bo.Y, p.Fn("rt/client.BearerToken"), 0)
 			}
 		}
 		c.obI("R14.5", sh, "bearer-writer", k == serverHdr && okV, "BearerToken writes \"Bearer \" + token to the Authorization header (the prefix the server strips)", "")
@@ -303,14 +347,14 @@ func runC14(c *Ctx) {
 		for _, ci := range callsIn(a, "(rt.ClientRequest).SetQueryParam") {
 			_, ca := callArgs(ci.Common())
 			elems, _ := sliceLitElems(ca[1])
-			if (freeVarLoadIs(ca[0], "name") || isFreeVarNamed(ca[0], "name")) && len(elems) == 1 && (freeVarLoadIs(elems[0], "value") || isFreeVarNamed(elems[0], "value")) {
+			if isOuterParam(ca[0], ak, 0) && len(elems) == 1 && isOuterParam(elems[0], ak, 2) {
 				nQ++
 			}
 		}
 		for _, ci := range callsIn(a, "(rt.ClientRequest).SetHeaderParam") {
 			_, ca := callArgs(ci.Common())
 			elems, _ := sliceLitElems(ca[1])
-			if (freeVarLoadIs(ca[0], "name") || isFreeVarNamed(ca[0], "name")) && len(elems) == 1 && (freeVarLoadIs(elems[0], "value") || isFreeVarNamed(elems[0], "value")) {
+			if isOuterParam(ca[0], ak, 0) && len(elems) == 1 && isOuterParam(elems[0], ak, 2) {
 				nH++
 			}
 		}
@@ -326,26 +370,7 @@ func runC14(c *Ctx) {
 		}
 	}
 	c.obF("R14.5", sh, "header-writes-canonical", okCanon, "header parameters are written under their canonical name", "")
-	// a key written to the query by the auth writer is a client-set parameter: the snapshot of client-set parameters
-	// that wins over static query parameters of the base path is taken after the auth writer ran
-	bh := p.Fn("(*rt/client.request).buildHTTP")
-	var authCalls []ssa.Instruction
-	for _, ci := range allCalls(bh) {
-		if ci.Common().IsInvoke() && ci.Common().Method.Name() == "AuthenticateRequest" {
-			authCalls = append(authCalls, ci)
-		}
-	}
-	snaps := callsIn(bh, "(*rt/client.request).GetQueryParams")
-	c.obF("R14.5", bh, "auth-writer-and-snapshot", len(authCalls) >= 1 && len(snaps) >= 1, "buildHTTP runs the auth writer and snapshots the client-set query parameters", fmt.Sprintf("%d auth writer calls, %d snapshots", len(authCalls), len(snaps)))
-	for _, sn := range snaps {
-		late := true
-		for _, a := range authCalls {
-			if pathExists(bh, sn, a, nil, nil) {
-				late = false
-			}
-		}
-		c.obI("R14.5", sn, "query-snapshot-after-auth-writer", late, "the client-set query parameters that take precedence over static ones are read after the auth writer ran (an API key written to the query is transmitted as written, whatever the base path carries)", "the auth writer can run after the snapshot: a static query parameter of the same name then replaces the credential")
-	}
+	ruleQuerySnapshotAfterAuth(c, "R14.5")
 	c.min("R14.5", 7)
 
 	// R14.6 default credential
@@ -368,11 +393,24 @@ func runC14(c *Ctx) {
 				}
 			} else if _, isMC := unboxed(auth).(*ssa.MakeClosure); isMC {
 				okA, why = false, "the default-credential wrapper is installed unconditionally"
+			} else {
+				// the choice was moved into a helper: the wrapper is created only under both conditions
+				noOwn := factNil(vFieldLoadO("rt.ClientOperation", "AuthInfo"), true)
+				hasDef := factNil(vFieldLoadO(runtimeT, "DefaultAuthentication"), false)
+				for _, o := range originsOf(auth) {
+					mc, isMC := o.V.(*ssa.MakeClosure)
+					if !isMC {
+						continue
+					}
+					if pathExistsUnder(ch, nil, mc, noOwn, nil) || pathExistsUnder(ch, nil, mc, hasDef, nil) {
+						okA, why = false, "the default-credential wrapper can be created although the operation has its own AuthInfo (or without a default)"
+					}
+				}
 			}
 		}
 		c.obI("R14.6", b, "default-only-without-own-auth", okA, "the transport-wide default credential is wrapped in only when the operation has no AuthInfo of its own (and a default exists)", why)
 	}
-	for _, a := range ch.AnonFuncs {
+	for _, a := range anonFuncsDeep(ch) {
 		for _, d := range callsIn(a, "(rt.ClientAuthInfoWriter).AuthenticateRequest") {
 			noHdr := factEqString(vOrigins(oConstString(""), oCallWhere(-1, "(net/http.Header).Get", func(g *ssa.Call) bool {
 				recv, ga := callArgs(&g.Call)
@@ -440,4 +478,49 @@ func concatLiteralN(v ssa.Value) (string, int) {
 	}
 	walk(v)
 	return lit, n
+}
+
+// ruleQuerySnapshotAfterAuth (shared by C10 and C14): parameters the auth writer puts into the query are caller-set
+// parameters, so whatever reads "the caller's parameters" for the static-parameter merge runs after the auth writer.
+func ruleQuerySnapshotAfterAuth(c *Ctx, rule string) {
+	p := c.P
+	// a key written to the query by the auth writer is a client-set parameter: the snapshot of client-set parameters
+	// that wins over static query parameters of the base path is taken after the auth writer ran
+	bh := p.Fn("(*rt/client.request).buildHTTP")
+	var authCalls []ssa.Instruction
+	for _, ci := range allCalls(bh) {
+		if ci.Common().IsInvoke() && ci.Common().Method.Name() == "AuthenticateRequest" {
+			authCalls = append(authCalls, ci)
+		}
+	}
+	// the read of the client-set query parameters: the GetQueryParams snapshot or a direct presence test on r.query
+	var snaps []ssa.Instruction
+	for _, ci := range callsIn(bh, "(*rt/client.request).GetQueryParams") {
+		snaps = append(snaps, ci)
+	}
+	for _, in := range instrs(bh) {
+		if lk, ok := in.(*ssa.Lookup); ok && lk.CommaOk && (vFieldLoad("rt/client.request", "query", nil)(lk.X) || vFieldLoadO("rt/client.request", "query")(lk.X)) {
+			snaps = append(snaps, lk)
+		}
+	}
+	c.obF(rule, bh, "auth-writer-and-snapshot", len(authCalls) >= 1 && len(snaps) >= 1, "buildHTTP runs the auth writer and snapshots the client-set query parameters", fmt.Sprintf("%d auth writer calls, %d snapshots", len(authCalls), len(snaps)))
+	for _, sn := range snaps {
+		late := true
+		for _, a := range authCalls {
+			if pathExists(bh, sn, a, nil, nil) {
+				late = false
+			}
+		}
+		c.obI(rule, sn, "query-snapshot-after-auth-writer", late, "the client-set query parameters that take precedence over static ones are read after the auth writer ran (an API key written to the query is transmitted as written, whatever the base path carries)", "the auth writer can run after the snapshot: a static query parameter of the same name then replaces the credential")
+	}
+}
+
+// isOuterParam: v (inside a function literal) is the constructor's parameter #idx, captured by the literal —
+// whatever the parameter is called.
+func isOuterParam(v ssa.Value, outer *ssa.Function, idx int) bool {
+	if idx >= len(outer.Params) {
+		return false
+	}
+	ok, _ := allOrigins(v, oIsValue(outer.Params[idx]))
+	return ok
 }
